@@ -43,12 +43,12 @@ def run(R):
     try:
         if R.want("C10.R1"):
             r1(R, M)
+        if R.want("C10.R4"):  # structural, first: a violation found here outranks an interpreter failure in R2 / R3
+            r4(R, M)
         if R.want("C10.R2"):
             r2(R, M)
         if R.want("C10.R3"):
             r3(R, M)
-        if R.want("C10.R4"):
-            r4(R, M)
     finally:
         vn_py.INV_MODE[0] = "explicit"
 
@@ -181,6 +181,66 @@ def r3(R, M):
             "the vectorised grain-frame strain differs from the per-grain one: " + why[:300])
 
 
+def value_alternatives(mod, fn, node, depth=2):
+    """the expressions a value may come from: a name -> every value assigned to it in fn, a call of a same-module helper -> every
+    value it returns, a conditional expression -> both arms.  Returns a list of ast nodes (leaves only)."""
+    out = []
+    if depth < 0:
+        return [node]
+    if isinstance(node, ast.Name):
+        vals = [a.value for a in ast.walk(fn) if isinstance(a, ast.Assign) and any(isinstance(t, ast.Name) and t.id == node.id for t in a.targets)]
+        if not vals:
+            return [node]
+        for v in vals:
+            out += value_alternatives(mod, fn, v, depth)
+        return out
+    if isinstance(node, ast.IfExp):
+        return value_alternatives(mod, fn, node.body, depth) + value_alternatives(mod, fn, node.orelse, depth)
+    if isinstance(node, ast.Call):
+        hs = [h for h in pyfacts.local_callees(mod, node, 0) if isinstance(node.func, (ast.Name, ast.Attribute))
+              and h.name == (node.func.id if isinstance(node.func, ast.Name) else node.func.attr)]
+        if len(hs) == 1:
+            rets = [r.value for r in ast.walk(hs[0]) if isinstance(r, ast.Return) and r.value is not None]
+            for v in rets:
+                out += value_alternatives(mod, hs[0], v, depth - 1)
+            if out:
+                return out
+    return [node]
+
+
+def r4_reference_b(R, gm, fn, meth, bexpr):
+    """reference B: <x>.UB exactly when hasattr(<x>, 'UB'), unitcell(<x>).B otherwise - directly or through a helper"""
+    alts = value_alternatives(gm, fn, bexpr)
+    ub = [a for a in alts if isinstance(a, ast.Attribute) and a.attr == "UB"]
+    cell = [a for a in alts if isinstance(a, ast.Attribute) and a.attr == "B" and isinstance(a.value, ast.Call)
+            and (pyfacts.dotted(a.value.func) or "").endswith("unitcell")]
+    R.shape(len(alts) >= 1 and all(isinstance(a, ast.Attribute) for a in alts), "C10.R4", GR, "grain.%s" % meth,
+            "the reference B as attribute reads (.UB of a grain / .B of a unit cell)")
+    R.check(len(ub) >= 1 and len(cell) >= 1 and len(ub) + len(cell) == len(alts), "C10.R4", GR, fn.lineno, "grain.%s" % meth,
+            "B = dzero_cell.UB if a grain was given else unitcell(dzero_cell).B (found %s)" % [src(a) for a in alts],
+            "reference B selection differs")
+    tests = []
+    for n in pyfacts.closure_walk(gm, fn, 2):
+        if isinstance(n, (ast.If, ast.IfExp)):
+            t, pos = n.test, True
+            while isinstance(t, ast.UnaryOp) and isinstance(t.op, ast.Not):
+                t, pos = t.operand, not pos
+            if isinstance(t, ast.Call) and src(t.func) == "hasattr" and len(t.args) == 2 and isinstance(t.args[1], ast.Constant) and t.args[1].value == "UB":
+                tests.append((n, pos))
+    R.shape(len(tests) == 1, "C10.R4", GR, "grain.%s" % meth, "exactly one hasattr(..., 'UB') test selecting the reference B")
+    n, pos = tests[0]
+    body = n.body if isinstance(n.body, list) else [n.body]
+    inside = set()
+    for b in body:
+        inside |= {id(x) for x in ast.walk(b)}
+    for a in ub:
+        R.check((id(a) in inside) == pos, "C10.R4", GR, a.lineno, "grain.%s" % meth, "%s is used when hasattr(.., 'UB') holds" % src(a),
+                "the grain's UB is read on the branch where the object has no UB attribute")
+    for a in cell:
+        R.check((id(a) in inside) != pos, "C10.R4", GR, a.lineno, "grain.%s" % meth, "%s is used when hasattr(.., 'UB') fails" % src(a),
+                "cell parameters are interpreted on the branch where a grain was given")
+
+
 def r4(R, M):
     R.rule("C10.R4", "grain.eps_grain(_matrix) uses finite_strain_ref, eps_sample(_matrix) uses finite_strain_lab, both from "
                      "DeformationGradientTensor(self.ubi, B) with B chosen by the same test; tensor rotations are U.T.U^T and U^T.T.U")
@@ -194,10 +254,7 @@ def r4(R, M):
         d = [c for c in ast.walk(fn) if isinstance(c, ast.Call) and (pyfacts.dotted(c.func) or "").endswith("DeformationGradientTensor")]
         R.check(len(d) == 1 and [src(a) for a in d[0].args] == ["self.ubi", "B"], "C10.R4", GR, fn.lineno, "grain.%s" % meth,
                 "DeformationGradientTensor(self.ubi, B)", "the deformation gradient is not built from this grain's ubi and the reference B")
-        tests = [n for n in ast.walk(fn) if isinstance(n, ast.If)]
-        R.check(len(tests) == 1 and src(tests[0].test) == "hasattr(dzero_cell, 'UB')" and "dzero_cell.UB" in src(tests[0].body[0])
-                and "unitcell(dzero_cell).B" in src(tests[0].orelse[0]), "C10.R4", GR, fn.lineno, "grain.%s" % meth,
-                "B = dzero_cell.UB if a grain was given else unitcell(dzero_cell).B", "reference B selection differs")
+        r4_reference_b(R, gm, fn, meth, d[0].args[1])
     for meth, inner in (("eps_grain", "eps_grain_matrix"), ("eps_sample", "eps_sample_matrix")):
         fn = gm.func("grain.%s" % meth)
         u = ast.unparse(fn)
